@@ -98,12 +98,64 @@ impl Prop for C01 {
     }
     fn run(&self, case: &Case) -> CaseResult {
         let mut r = CaseResult::default();
+        let pkt = run_one(case, &mut r);
+        // data-dependent coincidence: the same call with a message whose last
+        // bytes are a valid PEC of everything before them (then the packet's own
+        // PEC is 0x00 and, in the second form, the packet ends with two equal
+        // bytes) - content a uniformly random payload meets once in 2^16
+        if let (Some(pkt), true) = (pkt, r.failures.is_empty()) {
+            let h = pkt.iter().fold(0u8, |a, b| a.wrapping_mul(31) ^ b);
+            if let Some(call2) = self_pec_variant(&case.enc.call, &pkt, h & 1 == 0) {
+                let mut c2 = case.clone();
+                c2.enc.call = call2;
+                let mut r2 = CaseResult::default();
+                let _ = run_one(&c2, &mut r2);
+                r.label("payload_ends_with_pec");
+                for f in r2.failures {
+                    r.fail(format!("{}:payload_ends_with_pec", f.sig), format!("with the message changed to end in the PEC of what precedes it: {}", f.detail));
+                }
+            }
+        }
+        r
+    }
+}
+
+/// `call` with the tail of its free-form message replaced so that, inside the
+/// packet `pkt` it was encoded to, the message ends with the CRC-8 of all
+/// preceding packet bytes (`two` = followed by 0x00).
+fn self_pec_variant(call: &EncCall, pkt: &[u8], two: bool) -> Option<EncCall> {
+    use EncCall::*;
+    let n = pkt.len();
+    let patch = |m: &Vec<u8>| -> Option<Vec<u8>> {
+        let k = m.len();
+        if k < 2 || n < 14 || pkt[n - 1 - k..n - 1] != m[..] {
+            return None;
+        }
+        let mut v = m.clone();
+        if two {
+            v[k - 2] = crate::crc::crc8(&pkt[..n - 3]);
+            v[k - 1] = 0;
+        } else {
+            v[k - 1] = crate::crc::crc8(&pkt[..n - 2]);
+        }
+        Some(v)
+    };
+    Some(match call {
+        ReqVendor { format, data, numeric, msg } => ReqVendor { format: *format, data: *data, numeric: *numeric, msg: patch(msg)? },
+        TraitPci { half, header, data } => TraitPci { half: *half, header: header.clone(), data: patch(data)? },
+        TraitIana { half, header, data } => TraitIana { half: *half, header: header.clone(), data: patch(data)? },
+        TraitSpdm { half, secured, header, data } => TraitSpdm { half: *half, secured: *secured, header: header.clone(), data: patch(data)? },
+        _ => return None,
+    })
+}
+
+fn run_one(case: &Case, r: &mut CaseResult) -> Option<Vec<u8>> {
         let env = &case.enc.env;
         let call = &case.enc.call;
         let kind = call.kind();
         let refenc = refmodel::ref_encode(call, env.eid_resp);
         let refp = match refenc {
-            RefEnc::Refuse(_) => return r, // not a packet; C16's business
+            RefEnc::Refuse(_) => return None, // not a packet; C16's business
             RefEnc::Packet(p) => p,
         };
         r.label(kind);
@@ -123,13 +175,13 @@ impl Prop for C01 {
         let mut buf = vec![0xA5u8; BIG];
         let len = match sut::encode(&sender, call, env.dest, &mut buf) {
             Enc::Ok(n) => n,
-            _ => return r, // no packet was produced: nothing to round-trip (C16 demands success)
+            _ => return None, // no packet was produced: nothing to round-trip (C16 demands success)
         };
         if len < 10 || len > buf.len() {
-            return r; // C04 reports bad lengths
+            return None; // C04 reports bad lengths
         }
         r.nontrivial = true;
-        let Some(want) = expected(call, len) else { return r };
+        let Some(want) = expected(call, len) else { return None };
         let pkt = &buf[..len];
 
         // receivers: the sender itself, a default context, a configured one with history
@@ -176,6 +228,5 @@ impl Prop for C01 {
                 }
             }
         }
-        r
-    }
+        Some(pkt.to_vec())
 }
